@@ -684,6 +684,14 @@ func runFrame(fr *frame) {
 				panic(abortPath{"unsupported", "interpreter crash: " + e.Error() + " in " + fr.fn.String() + " at " + fr.where()})
 			}
 		}
+		// annotate runtime errors of the target with the innermost location
+		if tp, ok := r.(targetPanic); ok {
+			if itf, ok := tp.v.(iface); ok && itf.t == fr.i.w.runtimeErrorString {
+				if msg, ok := itf.v.(string); ok && !strings.Contains(msg, " [at ") {
+					r = targetPanic{v: iface{t: itf.t, v: msg + " [at " + fr.where() + " in " + shortFn(fr.fn.String()) + "]"}}
+				}
+			}
+		}
 		fr.panicking = true
 		fr.panic = r
 		fr.runDefers()
